@@ -94,6 +94,22 @@ func e1One(s *e1Space, i int64, thorough bool) (p *rj.Program, src map[string]st
 func runSpace(r *core.Run, s *e1Space) {
 	n := s.N(r.Thorough())
 	th := r.Thorough()
+	r.HangDescribe = func(i int64) (string, interface{}) {
+		src := map[string]string{}
+		entry := ""
+		func() {
+			defer func() { recover() }()
+			if p := s.Gen(i, th); p != nil {
+				pr := rj.NewPrinter()
+				if s.Printer != nil {
+					pr = s.Printer(i)
+				}
+				src, entry = rj.Render(p, pr), p.Entry
+			}
+		}()
+		return fmt.Sprintf("[%s #%d] %s", s.Name, i, p1(src, entry)), e1Case{Space: s.Prop + "/" + s.Name, Index: i, Thorough: th, Detail: map[string]interface{}{"files": src, "entry": entry}}
+	}
+	defer func() { r.HangDescribe = nil }()
 	r.ParallelFor(n, func(i int64) {
 		p, src, ref, got, why := e1One(s, i, th)
 		if p == nil {
